@@ -258,19 +258,31 @@ def run(facts, tier):
         fields = [f_["name"] for f_ in comp[0]["variants"][0]["fields"]]
         b = Body(cj[0])
         loc = b.find_calls(r"^jaq_core::compile::Locals::<.*>::call$")
-        nat = [i_ for i_, bb_ in enumerate(b.bbs) for s_ in bb_["st"] if s_.get("k") == "A" and s_["r"].get("k") == "Agg" and s_["r"].get("variant") == "Native" and "compile::Term" in (s_["r"].get("ak") or "")]
-        mods = []
-        if "included_mods" in fields:
-            k_ = fields.index("included_mods")
+        k_ = fields.index("included_mods") if "included_mods" in fields else None
+        lg = LocalGraph(facts, {"jaq_core"})
+
+        def own_native(body):
+            return [i_ for i_, bb_ in enumerate(body["bbs"]) for s_ in bb_["st"] if s_.get("k") == "A" and s_["r"].get("k") == "Agg" and s_["r"].get("variant") == "Native" and "compile::Term" in (s_["r"].get("ak") or "")]
+
+        def own_mods(body):
+            out_ = []
+            bx = Body(body)
             reads = set()
-            for bb_ in b.bbs:
+            for bb_ in bx.bbs:
                 for s_ in bb_["st"]:
                     if s_.get("k") == "A" and s_["r"].get("k") in ("Ref", "Use"):
                         pl = s_["r"].get("p") or s_["r"]["o"].get("c") or s_["r"]["o"].get("m")
-                        if pl and {"f": k_} in (pl.get("pr") or []) and b.locals[pl["l"]]["ty"].lstrip("&mut ").startswith("jaq_core::compile::Compiler<"):
+                        if pl and k_ is not None and {"f": k_} in (pl.get("pr") or []) and bx.locals[pl["l"]]["ty"].replace("&mut ", "").replace("&", "").startswith("jaq_core::compile::Compiler<"):
                             reads.add(s_["p"]["l"])
-            der = b.derived_from(reads) if reads else set()
-            mods = [i_ for i_, t_ in b.calls() if set(b.arg_locals(i_)) & der and not b.bbs[i_].get("cleanup")]
+            der = bx.derived_from(reads) if reads else set()
+            return [i_ for i_, t_ in bx.calls() if set(bx.arg_locals(i_)) & der and not bx.bbs[i_].get("cleanup")]
+        me = norm_def(cj[0]["def"])
+        has_native = lambda d: d != me and any(own_native(bd) for bd in lg.bodies.get(d, []))
+        has_mods = lambda d: d != me and any(own_mods(bd) for bd in lg.bodies.get(d, []))
+        # stages of this function: its own statements, and the helpers/closures it uses that do the work (found by what they do)
+        nat = own_native(cj[0]) + [i_ for i_, tgt in lg.uses(cj[0]) if tgt != me and tgt in lg.bodies and lg.reaches(tgt, has_native, depth=3)]
+        mods = own_mods(cj[0]) + [i_ for i_, tgt in lg.uses(cj[0]) if tgt != me and tgt in lg.bodies and lg.reaches(tgt, has_mods, depth=3)]
+        nat = sorted(set(nat) - set(mods))
         if not loc or not nat or not mods:
             g9.missing_anchor(f"stages of the call resolution (local look-up {len(loc)}, walk over included_mods {len(mods)}, native call {len(nat)})")
         else:
